@@ -123,7 +123,12 @@ def proc_main(cmd_r, res_w, variant, path, offsets, pipes):
         try:
             if c == "getsplit":
                 armed[0] = True
-                r = f[msg[1]]
+                if len(msg) > 2 and msg[2] == 1:
+                    # the same item reached by iteration (the Sequence protocol does not go through __getitem__)
+                    import itertools
+                    r = next(itertools.islice(iter(f), msg[1], None))
+                else:
+                    r = f[msg[1]]
                 armed[0] = False
                 reply(["ok", fix(r)])
             elif c == "get":
@@ -182,7 +187,7 @@ def run_case(case):
                 procs[c] = Proc(r[1], pipes[c][2], pipes[c][1])
             elif e[0] == 1:
                 p, i = e[1], e[2]
-                procs[p].send("getsplit", i)
+                procs[p].send("getsplit", i, e[3] if len(e) > 3 else 0)
                 r = procs[p].recv()
                 if r[0] == "paused":
                     pending[p] = i
@@ -245,7 +250,7 @@ class P(Prop):
                    "a seek of the text / binary file object issues lseek on its descriptor and the following readline reads at the descriptor's position (observed: strace)",
                    "fork happens between accesses of the forking process, never between the seek and the readline of one access"]
     rule = ("One case = variant (buffered text, memory-mapped, MapAccessFile) x file of 2-6 lines x schedule of forks (children of children too), "
-            "accesses split into seek and readline so that any other process can seek / read / fork in between, and redundant open() calls.  "
+            "accesses (by index, or - text and memory-mapped variants - by iterating up to the item) split into seek and readline so that any other process can seek / read / fork in between, and redundant open() calls.  "
             "VIOLATION when any read in any process differs from the line it would return in a single process.  CORRESPONDENCE: the same "
             "schedule run on the extracted Coq model gives the same reads and the same partition of the processes by open file description "
             "(lseek probe).")
@@ -272,7 +277,16 @@ class P(Prop):
                 events.append([1, p, i]); pending[p] = i
         for p in list(pending):
             events.append([2, p])
-        return dict(variant=rng.choice(VARIANTS), lines=lines, events=events)
+        variant = rng.choice(VARIANTS)
+        if variant != "map":
+            # some accesses reach their line by iteration instead of indexing - often the first access of a process
+            first = set()
+            for e in events:
+                if e[0] == 1:
+                    if rng.random() < (0.5 if e[1] not in first else 0.15):
+                        e.append(1)
+                    first.add(e[1])
+        return dict(variant=variant, lines=lines, events=events)
 
     def generate(self, rng, tier, n):
         for _ in range(n):
@@ -314,7 +328,7 @@ class P(Prop):
         offs, o = [], 0
         for ln in case["lines"]:
             offs.append(o); o += len(ln.encode("utf-8")) + 1
-        evs = [e for e in case["events"] if e[0] != 3]
+        evs = [e[:3] for e in case["events"] if e[0] != 3]
         return 1800, [1, content, offs, evs]
 
     def canon(self, case, obs):
